@@ -414,9 +414,50 @@ theorem C19_dedup_keeps_first (c : α) (s : Data α) (ha : Aligned s) :
     cases hc
   exact ⟨fun h => key 0 h (fun i hi => absurd hi (Nat.not_lt_zero i)), key⟩
 
+/-! ### re-reading data into an existing object -/
+
+/-- Bridge (tie #1): `read_data`, `append_data` and `feature_subset` in the current source refresh the cached
+    counts they invalidate (`n_points` / `n_dims` from the shape of the new array). -/
+theorem C19_bridge_counts : Gen.ModelData.counts = CountCfg.std := by decide
+
+/-- **`read_data` on an object that already holds a dataset** (read → subset → de-duplicate → normalise in a
+    loop over feature subsets is how the example scripts use the class): whatever state the earlier passes left —
+    no hypothesis on `s` at all — the freshly read arrays are stored unchanged and the class invariant holds again,
+    so every clause proved from `Aligned` (alignment, the duplicate-removal clauses) applies to the new dataset; the
+    stored statistics are left alone. -/
+theorem C19_read_data (s : Data α) (t : List (List α)) (r : List α) (d : Nat)
+    (hl : t.length = r.length) (hr : Rect d t) :
+    Aligned (s.readData Gen.ModelData.counts t r d) ∧
+    (s.readData Gen.ModelData.counts t r d).training = t ∧
+    (s.readData Gen.ModelData.counts t r d).response = r ∧
+    (s.readData Gen.ModelData.counts t r d).respProps = s.respProps ∧
+    (s.readData Gen.ModelData.counts t r d).trainProps = s.trainProps := by
+  rw [C19_bridge_counts]
+  exact ⟨⟨rfl, hl, hr⟩, rfl, rfl, rfl, rfl⟩
+
+/-- … and therefore duplicate removal after a re-read examines every row of the NEW dataset: no two survivors
+    within the cut-off, whatever the object held before. -/
+theorem C19_read_then_dedup (s : Data α) (t : List (List α)) (r : List α) (d : Nat) (c : α)
+    (hl : t.length = r.length) (hr : Rect d t) :
+    Aligned ((s.readData Gen.ModelData.counts t r d).removeDuplicates Gen.ModelData.dedup c) ∧
+    ((s.readData Gen.ModelData.counts t r d).removeDuplicates Gen.ModelData.dedup c).training.Pairwise
+      (fun p q => within .lt c (sqDist p q) = false) := by
+  have ha := (C19_read_data s t r d hl hr).1
+  exact ⟨((C19_alignment _ ha).2.2 c).1, C19_dedup_sound c _ ha⟩
+
 end field
 
 /-! ### the original scan is refuted on the two witnesses of DESIGN §6 #10 -/
+
+/-- why the refresh matters (the stale-count slip): read a 3-row dataset into an object that held 1 row WITHOUT
+    refreshing `n_points`, and duplicate removal never looks at rows 1 and 2 — two coincident rows survive. -/
+theorem C19_read_data_needs_counts :
+    let s := (Data.init [[(7 : Rat)]] [0] 1).readData ⟨false, true, true, true⟩ [[0], [5], [5]] [1, 2, 3] 1
+    ¬ Aligned s ∧ (s.removeDuplicates DedupCfg.repaired (1/10)).training = [[0], [5], [5]] := by
+  refine ⟨?_, by decide +kernel⟩
+  intro h
+  have := h.1
+  simp [Data.readData, Data.init] at this
 
 /-- Original code (pair loop with `break`) on the points 0, 0.6, −0.6 with cut-off 1: the scan
     marks only index 1, so 0 and −0.6 both survive although they are within the cut-off. -/
